@@ -1,5 +1,5 @@
 from .. import facts
-from ..rules import sampling, tables, geometry, traps, prefetch, alloc, filt
+from ..rules import sampling, tables, geometry, traps, prefetch, alloc, filt, region
 
 
 def run(ck):
@@ -25,3 +25,5 @@ def run(ck):
     geometry.r16_translation_offset_in_wide_type(ck, P)
     geometry.r_coordinate_split_floors(ck, P, 'C04-R18')     # the dither tables are indexed with a reduced coordinate
     geometry.r_dispatch_needs_extent_analysis(ck, P)
+    region.r7_20_partial_word_read_needs_partial_word(ck, P)     # the bitmap import reads the caller's a1 image
+    region.r7_19_bitmap_read_only_with_pixels(ck, P, 'C04-R21')
